@@ -23,7 +23,7 @@ import (
 )
 
 // Register adds this area's suites.
-func Register(s Suites) { s.Add("C06", runC06) }
+func Register(s Suites) { s.Add("C06", runC06); s.Add("C06FUSE", fusionSearch) }
 
 func runC06(c *Ctx) {
 	c.R.Rule = "HT components: MEL event sequences length 0..5000 with P(1) in {0,1/1000,1/64,1/8,1/2,7/8,1} and run-structured; " +
@@ -33,7 +33,7 @@ func runC06(c *Ctx) {
 	for _, st := range []struct {
 		name string
 		f    func(*Ctx)
-	}{{"mel", melSuite}, {"uvlc", uvlcSuite}, {"vlc", vlcSuite}, {"levels", levelsSuite}, {"qcd", qcdSuite}, {"block", blockSuite}, {"blockmodel", blockModelSuite}, {"bigblock", bigBlockSuite}} {
+	}{{"mel", melSuite}, {"uvlc", uvlcSuite}, {"vlc", vlcSuite}, {"levels", levelsSuite}, {"qcd", qcdSuite}, {"block", blockSuite}, {"blockmodel", blockModelSuite}, {"fusion", fusionCorpusSuite}, {"fusionframes", fusionFramesSuite}, {"bigblock", bigBlockSuite}} {
 		t0 := time.Now()
 		st.f(c)
 		c.R.Note("ht.%s: %.1fs", st.name, time.Since(t0).Seconds())
